@@ -89,4 +89,34 @@ SameDoc(da, db) ==
   /\ SameBag(da.elems, db.elems)
   /\ da.w = db.w /\ da.h = db.h
   /\ da.style = db.style
+
+------------------------------------------------------------------------
+(* C18 — settings switches and entry points.  ev.rel.kind says which relation to the base     *)
+(* event (the default conversion of the same input) is claimed.                              *)
+SameBody(da, db) == da.elems = db.elems /\ da.rootcls = db.rootcls /\ da.ns = db.ns
+SameFrame(da, db) == da.w = db.w /\ da.h = db.h /\ da.backdrop = db.backdrop
+Flag01(b) == IF b THEN 1 ELSE 0
+SettingsVariant(a, ev) ==
+  LET da == a.doc db == ev.doc k == ev.rel.kind IN
+  /\ da.wf = 1 /\ db.wf = 1 /\ a.rows = ev.rows
+  /\ CASE k = "same" ->          \* another entry point, default settings: byte-identical
+            ev.sha = a.sha
+       [] k = "compressed" ->     \* same document without inter-element whitespace
+            /\ SameBody(da, db) /\ SameFrame(da, db) /\ da.style = db.style /\ da.order = db.order
+            /\ da.nstyle = db.nstyle /\ da.ndefs = db.ndefs /\ da.nbackdrop = db.nbackdrop /\ db.ws_between = 0
+       [] k = "toggle" ->         \* the three switches add / remove exactly their own element
+            /\ SameBody(da, db) /\ da.w = db.w /\ da.h = db.h
+            /\ db.nstyle = ev.rel.styles /\ db.ndefs = ev.rel.defs /\ db.nbackdrop = ev.rel.backdrop
+            /\ (ev.rel.styles = 1 => db.style = da.style) /\ (ev.rel.styles = 0 => db.style = << <<>> >> \/ db.style = <<>>)
+            /\ (ev.rel.backdrop = 1 => db.backdrop = da.backdrop)
+            /\ db.order = SelectSeq(da.order, LAMBDA nm : (nm = "style" => ev.rel.styles = 1) /\ (nm = "defs" => ev.rel.defs = 1)
+                                                      /\ (nm = "rect#backdrop" => ev.rel.backdrop = 1))
+       [] k = "cosmetic" ->       \* colours, font, stroke: only the style sheet changes
+            /\ SameBody(da, db) /\ SameFrame(da, db) /\ da.order = db.order
+            /\ da.nstyle = db.nstyle /\ da.ndefs = db.ndefs /\ da.nbackdrop = db.nbackdrop
+            /\ Len(db.style) = Len(da.style)
+       [] k = "override" ->       \* an overridden size changes only root and backdrop dimensions
+            /\ SameBody(da, db) /\ da.style = db.style /\ da.order = db.order
+            /\ db.w = ev.rel.w /\ db.h = ev.rel.h /\ db.backdrop = <<0, 0, ev.rel.w, ev.rel.h>>
+       [] OTHER -> FALSE
 =============================================================================
